@@ -64,6 +64,10 @@ static void free_fit(struct fit *f) { DelPCAModel(&f->mod); DelMatrix(&f->mx); i
 static void body(void) {
   int sh = vx_choose("shape", vx_thorough() ? 6 : 5);
   int n = SHAPES[sh][0], p = SHAPES[sh][1];
+  /* exact two-level full factorial design (2^p runs, p = 3 / 4, column j = +-spread*4^-j, dyadic): the columns are exactly
+   * orthogonal, so the first component removes its column EXACTLY (a zero column in the deflated matrix, not a tiny one) */
+  int fact = vx_choose_dev("factorial", 2);
+  if (fact) { vx_require(sh < 2); p = sh == 0 ? 3 : 4; n = 1 << p; }
   int cfg = vx_choose("ratio*spread", 12);
   double ratio = RATIOS[cfg / 3], spread = SPREADS[cfg % 3];
   int scaling = vx_choose("scaling+1", 7) - 1;
@@ -76,6 +80,7 @@ static void body(void) {
     nproc = vx_choose("nproc", 2) ? 3 : 1;
     a = 1 + vx_choose("npc-1", amax);
   } else { fam = vx_choose("fam", vx_thorough() ? 3 : 2); offs = 1; nproc = 1; a = amax; }
+  if (fact) vx_require(mode == 0 && cfg / 3 == 0 && fam == 0);
   vx_require(!(scaling == 5 && offs == 0));   /* level scaling of exactly centred columns divides by 0: degenerate (C18) */
   vx_require(!(mode == 3 && scaling > 0));    /* statement: rotation of UNSCALED data */
 
@@ -83,7 +88,8 @@ static void body(void) {
   static double E0_[NR * NC], X_[NR * NC], XB_[NR * NC];
   double s[NC + 1]; for (int i = 0; i < m; i++) s[i] = i ? s[i - 1] * ratio : 1.0;
   gen_centered_spectral(fam, n, p, s, E0_);
-  { rmat *G = rm_new(n, p); for (int i = 0; i < n * p; i++) G->a[i] = E0_[i];
+  if (fact) { double c0 = spread < 0.1 ? 1.0 / 64 : spread > 10 ? 64.0 : 1.0; for (int i = 0; i < n; i++) for (int j = 0; j < p; j++) E0_[i * p + j] = (((i >> j) & 1) ? c0 : -c0) / (double)(1 << (2 * j)); }
+  else { rmat *G = rm_new(n, p); for (int i = 0; i < n * p; i++) G->a[i] = E0_[i];
     ld minsd = INFINITY; for (int j = 0; j < p; j++) { ld sd; rm_col_stats(G, j, NULL, NULL, &sd, NULL, NULL, NULL); if (sd < minsd) minsd = sd; }
     rm_free(G); vx_require(minsd > 0);
     double f = (double)(spread / minsd) * (1 + 1e-9); for (int i = 0; i < n * p; i++) E0_[i] *= f; }
@@ -200,7 +206,7 @@ static void body(void) {
 
 int main(int argc, char **argv) {
   vg_seed(getenv("VERIF_SEED") ? atol(getenv("VERIF_SEED")) : 0);
-  vx_describe("alphabet", "X = U diag(s) V' + offsets, U'1=0, s_i = ratio^i, ratio in {.3,.6,.85,.01}; overall scale so that the smallest column SD is in {0.02,1,100}; shapes {(6,3),(10,4),(8,8),(5,12),(30,6)} [+(60,25)]; scaling -1..5; 2 [4] instances; offsets {none, (1,-7.5,2.5,40) cyclic}; npc 1..3; nproc {1,3}; transformations: ALL row permutations for n<=6 (720 / 120), cyclic shifts + reversal otherwise; ALL column permutations for p<=5, cyclic + reversal otherwise; 6 Householder-product rotations (scaling -1, 0)");
+  vx_describe("alphabet", "X = U diag(s) V' + offsets (plus, as a deviation, the exact 2^3 and 2^4 two-level factorial designs with dyadic column scales), U'1=0, s_i = ratio^i, ratio in {.3,.6,.85,.01}; overall scale so that the smallest column SD is in {0.02,1,100}; shapes {(6,3),(10,4),(8,8),(5,12),(30,6)} [+(60,25)]; scaling -1..5; 2 [4] instances; offsets {none, (1,-7.5,2.5,40) cyclic}; npc 1..3; nproc {1,3}; transformations: ALL row permutations for n<=6 (720 / 120), cyclic shifts + reversal otherwise; ALL column permutations for p<=5, cyclic + reversal otherwise; 6 Householder-product rotations (scaling -1, 0)");
   vx_describe("oracle", "reference = cyclic Jacobi (long double) on the Gram matrix of the library's preprocessed data; component k judged iff lambda_{j+1}/lambda_j <= 0.9 for all j<=k; sin angle(p_k,v_k) <= 5k*delta/(1-r)^2 + 1e3*eps*(n+p)*sigma_1/sigma_k, delta=sqrt(n*1e-10); scores within sigma_1*allowance; varexp within 100*(4 a s1 sk + a^2 s1^2 + 2 delta lambda_k)/trace; equivariance: twice the allowance, one sign per component shared by loadings and scores");
   vx_set_shard_depth(3);
   vx_expect_outcomes(40);   /* low on purpose: a library that returns the same (e.g. all-zero) model for every input of a shape must surface as violations, not as a vacuity error */
